@@ -127,9 +127,7 @@ def i2c_valid_iff(c):
     c.bytes('img', 21)
     i2c_feed(c, el, mh, 'img0', c.ext('cb0'))
     c.require('raised is None')
-    # a read that never completes (unknown version) keeps its callback; the client then disconnects / re-reads
-    if c.get('el')._update_finished_cb is not None if c.backend == 'native' else False:
-        pass
+    # a read that never completes (unknown version) keeps its callback: the client gives up (disconnect) and reads again
     c.call((el, 'disconnect'))
     i2c_feed(c, el, mh, 'img', c.ext('cb'))
     c.ensure('no-exception', 'raised is None')
@@ -138,3 +136,29 @@ def i2c_valid_iff(c):
     c.ensure('reported-once-when-decidable', "implies(img[0:4] != b'0xBC' or img[4] in (0, 1), "
              "len(sent('cb')) == 1 and is_same(sent('cb')[0][1][0], el))")
     c.ensure('never-reported-twice', "len(sent('cb')) <= 1 and len(sent('cb0')) == 0")
+
+
+@contract('C14', 'i2c.single-byte-corruption', [I2C + ':I2CElement.write_data', I2C + ':I2CElement.update', I2C + ':I2CElement.new_data',
+                                               I2C + ':I2CElement._checksum256'],
+          clause='any single corrupted byte (any position, any other value) of an image written by write_data is detected: the '
+                 'element read back is not valid.  Excluded, because the format itself cannot detect it: the corruption that '
+                 'turns the version byte 0 into 1 or 1 into 0 (the parser then checks another length, see DESIGN C14 limit)')
+def i2c_corruption(c):
+    el, mh = i2c_element(c)
+    version = i2c_fields(c)
+    i2c_fill(c, el, version)
+    c.require(I2C_OK)
+    c.call((el, 'write_data'), c.ext('wcb'))
+    c.require('raised is None')
+    c.snapshot('good', "bytes(sent('mh.write')[0][1][2])")
+    n = 16 if version == 0 else 21
+    c.int('pos', 0, n - 1)
+    c.int('newval', 0, 255)
+    c.require('newval != good[pos]')
+    c.require('not (pos == 4 and newval in (0, 1))')
+    c.snapshot('img', 'bytes([(newval if i == pos else good[i]) for i in range(%d)])' % n)
+    rd, _ = i2c_element(c)
+    c.let('rd', rd)
+    i2c_feed(c, rd, mh, 'img', c.ext('cb'))
+    c.ensure('no-exception', 'raised is None')
+    c.ensure('corruption-detected', 'rd.valid is False')
